@@ -23,7 +23,7 @@
 (* Three further enumerated domains (Init-only): certloader cases, soap client cases.       *)
 EXTENDS Naturals, Sequences, FiniteSets, TLC, Json
 
-CONSTANTS Mgrs          \* subset of {"sync", "async"}
+CONSTANTS Mgrs          \* subset of {"sync", "async", "sync_ref", "async_ref"}: subscription manager flavour
 
 VARIABLES cfg,    \* the case: a configuration, a certloader case or a soap client case (field kind)
           pi,     \* number of phases done (0: nothing yet)
